@@ -214,7 +214,7 @@ PROPS["C12"] = dict(
                  "the partial last word of push_slice is the big-endian integer of the remaining bytes (zero-extended on the high side), as pinned by the "
                  "repository's own unit test push_slices and required by PUSH1..PUSH31",
                  "uninitialised buffer contents are modelled by CBMC as arbitrary fixed values", "Kani/CBMC/CaDiCaL trusted"],
-    harnesses=[H("c12::" + n, tier=("thorough" if n in _C12_THOROUGH_ONLY else "quick"), flags=ARRAYS_UF, timeout=1200, mem_gb=10, bounds=n) for n in _C12]
+    harnesses=[H("c12::" + n, tier=("thorough" if n in _C12_THOROUGH_ONLY else "quick"), flags=ARRAYS_UF, timeout=1200, mem_gb=10, bounds=n, replay="static") for n in _C12]
     + [H("c12::c12_twin_must_fail", expect_fail=True, flags=ARRAYS_UF, bounds="vacuity twin", mem_gb=6)],
 )
 
